@@ -51,6 +51,11 @@ package document
 //@   invariant 0 <= #i && #i <= len(varMatches) && unchangedHeap() && (cap(newRuns) == 0 || arr(newRuns) >= old(allocBound()))
 //@   invariant 0 <= currentPos && currentPos <= len(originalText)
 //@   invariant forall j int :: #i <= j && j < len(varMatches) ==> currentPos <= varMatches[j][0]
+// C18 "variable placeholders without data stay visible" (as far as the regexp model allows; checked with C17): in every
+// iteration whose variable name - the text of group 1 of the match - is not a key of data.Variables, the run appended last
+// carries the placeholder text itself, originalText[match start : match end]. (The conditional pass that follows may still
+// rewrite run texts; what it matches is regexp semantics.)
+//@   invariant #i >= 1 && !has(data.Variables, originalText[varMatches[#i-1][2]:varMatches[#i-1][3]]) ==> len(newRuns) >= 1 && newRuns[len(newRuns)-1].Text.Content == originalText[varMatches[#i-1][0]:varMatches[#i-1][1]]
 //@   decreases len(varMatches) - #i
 
 //@ func (*TemplateEngine).processNonTableLoops
@@ -70,24 +75,40 @@ package document
 
 // replaceVariablesInParagraph: of the memory that existed before the call exactly one location may change:
 // the run list of the paragraph it is given. Runs are rebuilt from clones; the old run array is not written.
+// C18 ("leaves everything else as it was"), variable pass on one paragraph: the frame says that of everything that existed
+// only the Runs FIELD of this paragraph may change - its properties (style, alignment, numbering, borders, ...), every
+// run object that existed (text, run properties, breaks, drawings of the old run array), every other paragraph, and all
+// tables, section properties, parts, relationships and content types are not written (frame:modifies obligations). Spelled
+// out below for the parts the property names. A paragraph without text (picture-only, breaks, empty) keeps its run list
+// itself: no run is re-created. What the new runs contain is decided by regexp matching and is not stated (C16).
 //@ func (*TemplateEngine).replaceVariablesInParagraph
-//@ props C17
+//@ props C17, C18
 //@ requires te != nil && para != nil && data != nil
 //@ modifies Paragraph.Runs
 //@ ensures err == nil
 //@ ensures forall p *Paragraph :: p != para ==> p.Runs == old(p.Runs)
+//@ ensures para.Properties == old(para.Properties) && (para.Properties != nil ==> unchangedStruct(para.Properties))
+//@ ensures forall k int :: 0 <= k && k < old(len(para.Runs)) ==> unchangedStruct(old(para.Runs)[k])
+//@ ensures (forall k int :: 0 <= k && k < old(len(para.Runs)) ==> old(para.Runs[k].Text.Content) == "") ==> para.Runs == old(para.Runs)
 //@ loop 1
 //@   invariant 0 <= #i && #i <= len(para.Runs) && unchangedHeap() && (cap(runInfos) == 0 || arr(runInfos) >= old(allocBound()))
 //@   invariant forall k int :: 0 <= k && k < len(runInfos) ==> runInfos[k].run != nil
 //@   invariant len(runInfos) == 0 ==> fullText == ""
+//@   invariant (forall k int :: 0 <= k && k < #i ==> para.Runs[k].Text.Content == "") ==> len(runInfos) == 0
 //@   decreases len(para.Runs) - #i
 
+// C18: the text pieces a paragraph is split into around a picture keep the paragraph's formatting - the new paragraph's
+// properties are a deep copy of the original's, it has exactly one run carrying the text, and that run has the formatting
+// of the original's first run (a plain run when the original had none).
 //@ func (*TemplateEngine).createTextParagraph
-//@ props C17
-//@ ignore-ensures deepcopy
+//@ props C17, C18
 //@ requires te != nil && originalPara != nil
 //@ modifies nothing
 //@ ensures fresh(result) && !isElem(result)
+//@ ensures deepcopy(result.Properties, originalPara.Properties)
+//@ ensures len(result.Runs) == 1 && result.Runs[0].Text.Content == text
+//@ ensures len(originalPara.Runs) > 0 ==> deepcopy(result.Runs[0].Properties, originalPara.Runs[0].Properties)
+//@ ensures len(originalPara.Runs) == 0 ==> result.Runs[0].Properties == nil
 
 // ---- tables ---------------------------------------------------------------------------------------------
 // tableRoot(t, b): the table object (or the array cell holding it) and its row array lie at or above b.
@@ -129,9 +150,12 @@ package document
 // everything else they write is fresh (cloned rows, new run arrays, the per-item data of nested tables).
 // The region stays closed and the table stays rooted in it. Top-level tables and paragraphs other than the
 // argument (separately allocated objects, not array cells) keep their rows / runs.
-// assume-no-panic: after the recursive call on a nested table the engine no longer knows the lengths of the
-// outer table's own row/cell arrays (that the nested table is not an ancestor of itself is a tree-shape fact
-// we do not state), so the index checks of these two functions are assumed, not proved.
+// assume-no-panic (replaceVariablesInTable only; renderTableTemplate's index checks are proved): the recursive call
+// works on a nested table that existed before the call, reached through table.Rows[i].Cells[j].Tables[k]. That the
+// call leaves the outer table's own row list and the cell list of row i alone is a tree-shape fact (a table is not
+// nested in itself): on a cyclic object graph the nested call could delete a row of the outer table (renderTableTemplate
+// on an empty list) and the re-read table.Rows[i] would then panic. Acyclicity of a heap-allocated tree is not
+// expressible with the flat region predicates used here, so the index checks of this one function stay assumed.
 //@ func (*TemplateEngine).replaceVariablesInTable
 //@ props C17
 //@ ghost B int
@@ -147,6 +171,13 @@ package document
 //@ ensures forall t *Table :: !isElem(t) && t != table ==> t.Rows == old(t.Rows)
 //@ ensures forall r *TableRow :: !isElem(r) && allocated(r) ==> r.Cells == old(r.Cells)
 //@ ensures forall p *Paragraph :: !isElem(p) && allocated(p) ==> p.Runs == old(p.Runs)
+// C18 ("leaves everything else as it was"), variable pass on a table incl. loop-row expansion and nested tables (checked with
+// C17): spelled-out consequences of the frame (only Table.Rows, TableRow.* and Paragraph.Runs may differ on existing objects):
+// table properties and grid, every existing cell (cell properties, its paragraph LIST and nested-table LIST), the properties
+// of every existing paragraph, and every existing run object (text, formatting, breaks, drawings) are not written.
+//@ ensures table.Properties == old(table.Properties) && table.Grid == old(table.Grid)
+//@ ensures forall c *TableCell :: allocated(c) ==> unchangedStruct(c)
+//@ ensures forall p *Paragraph :: allocated(p) ==> p.Properties == old(p.Properties)
 //@ loop 1
 //@   invariant unchangedBelow(B) && closedAbove(B) && tableRoot(table, B)
 //@   invariant forall t *Table :: !isElem(t) && t != table ==> t.Rows == old(t.Rows)
@@ -168,12 +199,18 @@ package document
 //@   invariant forall r *TableRow :: !isElem(r) && allocated(r) ==> r.Cells == old(r.Cells)
 //@   invariant forall p *Paragraph :: !isElem(p) && allocated(p) ==> p.Runs == old(p.Runs)
 
+// renderTableTemplate: index safety is PROVED (no assume-no-panic). The recursive call works on a nested table of the row
+// cloned in the current iteration of the item loop (loop 6): its ghost bound is instantiated with the allocation counter
+// at the head of that iteration (rebind ... iterBound(6)), so the callee's frame "nothing below its bound is written"
+// keeps the table itself, its row array and the rows collected so far, and its non-element frame keeps the Cells of the
+// fresh row; no tree-shape fact is needed. The template row index lies inside the row list (loops 1-4).
 //@ func (*TemplateEngine).renderTableTemplate
 //@ props C17
 //@ ghost B int
-//@ assume-no-panic
 //@ partial
+//@ checkfacts
 //@ ignore-ensures deepcopy
+//@ rebind replaceVariablesInTable B = iterBound(6)
 //@ requires te != nil && data != nil && tableRoot(table, B) && closedAbove(B)
 //@ modifies Table.Rows, TableRow.*, Paragraph.Runs
 //@ ensures unchangedBelow(B)
@@ -184,84 +221,148 @@ package document
 //@ ensures forall t *Table :: !isElem(t) && t != table ==> t.Rows == old(t.Rows)
 //@ ensures forall r *TableRow :: !isElem(r) && allocated(r) ==> r.Cells == old(r.Cells)
 //@ ensures forall p *Paragraph :: !isElem(p) && allocated(p) ==> p.Runs == old(p.Runs)
+// C18 (row expansion; checked with C17 because of the cost of this function): the row list keeps its length (no loop row), loses
+// exactly the template row (no or empty item list), or has the ONE template row replaced by one row per item of a list of the
+// data - rows before and after are all carried over (loops 5, 6, 14: newRows grows by one per row / per item, nothing is skipped).
+//@ ensures len(table.Rows) == old(len(table.Rows)) || len(table.Rows) == old(len(table.Rows)) - 1 || (exists k string :: has(data.Lists, k) && len(data.Lists[k]) > 0 && len(table.Rows) == old(len(table.Rows)) - 1 + len(data.Lists[k]))
 //@ loop 1
-//@   invariant unchangedHeap() && closedAbove(B)
+//@   invariant unchangedHeap()
+//@   invariant closedRows(B)
+//@   invariant closedCells(B)
+//@   invariant closedTables(B)
+//@   invariant 0 - 1 <= templateRowIndex && templateRowIndex < len(table.Rows)
 //@ loop 2
-//@   invariant unchangedHeap() && closedAbove(B)
+//@   invariant unchangedHeap()
+//@   invariant closedRows(B)
+//@   invariant closedCells(B)
+//@   invariant closedTables(B)
+//@   invariant 0 - 1 <= templateRowIndex && templateRowIndex < len(table.Rows)
+//@   invariant 0 <= i && i < len(table.Rows)
 //@ loop 3
-//@   invariant unchangedHeap() && closedAbove(B)
+//@   invariant unchangedHeap()
+//@   invariant closedRows(B)
+//@   invariant closedCells(B)
+//@   invariant closedTables(B)
+//@   invariant 0 - 1 <= templateRowIndex && templateRowIndex < len(table.Rows)
+//@   invariant 0 <= i && i < len(table.Rows)
 //@ loop 4
-//@   invariant unchangedHeap() && closedAbove(B)
+//@   invariant unchangedHeap()
+//@   invariant closedRows(B)
+//@   invariant closedCells(B)
+//@   invariant closedTables(B)
+//@   invariant 0 - 1 <= templateRowIndex && templateRowIndex < len(table.Rows)
+//@   invariant 0 <= i && i < len(table.Rows)
 //@ loop 5
 //@   invariant unchangedExcept("Table.Rows", "TableRow.*", "Paragraph.Runs") && unchangedBelow(B)
 //@   invariant closedRows(B)
 //@   invariant closedCells(B)
 //@   invariant closedTables(B)
-//@   invariant table != nil && above(table, B) && above(newRows, B) && tagged(newRows, "TableRow")
+//@   invariant B <= old(allocBound()) && table != nil && above(table, B) && above(newRows, B) && tagged(newRows, "TableRow") && table.Rows == old(table.Rows)
 //@   invariant (forall t *Table :: !isElem(t) && t != table ==> t.Rows == old(t.Rows)) && (forall r *TableRow :: !isElem(r) && allocated(r) ==> r.Cells == old(r.Cells)) && (forall p *Paragraph :: !isElem(p) && allocated(p) ==> p.Runs == old(p.Runs))
+//@   invariant 0 <= #i && #i <= rangeLen() && len(newRows) == #i
 //@ loop 6
 //@   invariant unchangedExcept("Table.Rows", "TableRow.*", "Paragraph.Runs") && unchangedBelow(B)
 //@   invariant closedRows(B)
 //@   invariant closedCells(B)
 //@   invariant closedTables(B)
-//@   invariant table != nil && above(table, B) && above(newRows, B) && tagged(newRows, "TableRow")
+//@   invariant B <= old(allocBound()) && table != nil && above(table, B) && above(newRows, B) && tagged(newRows, "TableRow") && table.Rows == old(table.Rows)
 //@   invariant (forall t *Table :: !isElem(t) && t != table ==> t.Rows == old(t.Rows)) && (forall r *TableRow :: !isElem(r) && allocated(r) ==> r.Cells == old(r.Cells)) && (forall p *Paragraph :: !isElem(p) && allocated(p) ==> p.Runs == old(p.Runs))
+//@   invariant 0 <= #i && #i <= len(listData) && len(newRows) == templateRowIndex + #i
 //@ loop 14
 //@   invariant unchangedExcept("Table.Rows", "TableRow.*", "Paragraph.Runs") && unchangedBelow(B)
 //@   invariant closedRows(B)
 //@   invariant closedCells(B)
 //@   invariant closedTables(B)
-//@   invariant table != nil && above(table, B) && above(newRows, B) && tagged(newRows, "TableRow")
+//@   invariant B <= old(allocBound()) && table != nil && above(table, B) && above(newRows, B) && tagged(newRows, "TableRow") && table.Rows == old(table.Rows)
 //@   invariant (forall t *Table :: !isElem(t) && t != table ==> t.Rows == old(t.Rows)) && (forall r *TableRow :: !isElem(r) && allocated(r) ==> r.Cells == old(r.Cells)) && (forall p *Paragraph :: !isElem(p) && allocated(p) ==> p.Runs == old(p.Runs))
+//@   invariant 0 <= #i && #i <= rangeLen() && len(newRows) == templateRowIndex + len(listData) + #i
 //@ loop 7
 //@   invariant unchangedExcept("Table.Rows", "TableRow.*", "Paragraph.Runs") && unchangedBelow(B)
 //@   invariant closedRows(B)
 //@   invariant closedCells(B)
 //@   invariant closedTables(B)
-//@   invariant table != nil && above(table, B) && above(newRows, B) && tagged(newRows, "TableRow") && newRow != nil && above(newRow, B) && above(newRow.Cells, B) && tagged(newRow.Cells, "TableCell")
+//@   invariant B <= old(allocBound()) && table != nil && above(table, B) && above(newRows, B) && tagged(newRows, "TableRow") && table.Rows == old(table.Rows) && newRow != nil && above(newRow, B) && above(newRow.Cells, B) && tagged(newRow.Cells, "TableCell")
 //@   invariant (forall t *Table :: !isElem(t) && t != table ==> t.Rows == old(t.Rows)) && (forall r *TableRow :: !isElem(r) && allocated(r) ==> r.Cells == old(r.Cells)) && (forall p *Paragraph :: !isElem(p) && allocated(p) ==> p.Runs == old(p.Runs))
+//@   invariant !isElem(newRow) && above(newRow, iterBound(6)) && above(newRow.Cells, iterBound(6)) && newRow.Cells == atLoop(7, newRow.Cells)
+//@   invariant closedRows(iterBound(6))
+//@   invariant closedCells(iterBound(6))
+//@   invariant closedTables(iterBound(6))
 //@ loop 8
 //@   invariant unchangedExcept("Table.Rows", "TableRow.*", "Paragraph.Runs") && unchangedBelow(B)
 //@   invariant closedRows(B)
 //@   invariant closedCells(B)
 //@   invariant closedTables(B)
-//@   invariant table != nil && above(table, B) && above(newRows, B) && tagged(newRows, "TableRow") && newRow != nil && above(newRow, B) && above(newRow.Cells, B) && tagged(newRow.Cells, "TableCell")
+//@   invariant B <= old(allocBound()) && table != nil && above(table, B) && above(newRows, B) && tagged(newRows, "TableRow") && table.Rows == old(table.Rows) && newRow != nil && above(newRow, B) && above(newRow.Cells, B) && tagged(newRow.Cells, "TableCell")
 //@   invariant (forall t *Table :: !isElem(t) && t != table ==> t.Rows == old(t.Rows)) && (forall r *TableRow :: !isElem(r) && allocated(r) ==> r.Cells == old(r.Cells)) && (forall p *Paragraph :: !isElem(p) && allocated(p) ==> p.Runs == old(p.Runs))
+//@   invariant !isElem(newRow) && above(newRow, iterBound(6)) && above(newRow.Cells, iterBound(6)) && newRow.Cells == atLoop(7, newRow.Cells)
+//@   invariant closedRows(iterBound(6))
+//@   invariant closedCells(iterBound(6))
+//@   invariant closedTables(iterBound(6))
+//@   invariant 0 <= i && i < len(newRow.Cells)
 //@ loop 9
 //@   invariant unchangedExcept("Table.Rows", "TableRow.*", "Paragraph.Runs") && unchangedBelow(B)
 //@   invariant closedRows(B)
 //@   invariant closedCells(B)
 //@   invariant closedTables(B)
-//@   invariant table != nil && above(table, B) && above(newRows, B) && tagged(newRows, "TableRow") && newRow != nil && above(newRow, B) && above(newRow.Cells, B) && tagged(newRow.Cells, "TableCell")
+//@   invariant B <= old(allocBound()) && table != nil && above(table, B) && above(newRows, B) && tagged(newRows, "TableRow") && table.Rows == old(table.Rows) && newRow != nil && above(newRow, B) && above(newRow.Cells, B) && tagged(newRow.Cells, "TableCell")
 //@   invariant (forall t *Table :: !isElem(t) && t != table ==> t.Rows == old(t.Rows)) && (forall r *TableRow :: !isElem(r) && allocated(r) ==> r.Cells == old(r.Cells)) && (forall p *Paragraph :: !isElem(p) && allocated(p) ==> p.Runs == old(p.Runs))
+//@   invariant !isElem(newRow) && above(newRow, iterBound(6)) && above(newRow.Cells, iterBound(6)) && newRow.Cells == atLoop(7, newRow.Cells)
+//@   invariant closedRows(iterBound(6))
+//@   invariant closedCells(iterBound(6))
+//@   invariant closedTables(iterBound(6))
+//@   invariant 0 <= i && i < len(newRow.Cells)
+//@   invariant 0 <= j && j < len(newRow.Cells[i].Paragraphs)
 //@ loop 10
 //@   invariant unchangedExcept("Table.Rows", "TableRow.*", "Paragraph.Runs") && unchangedBelow(B)
 //@   invariant closedRows(B)
 //@   invariant closedCells(B)
 //@   invariant closedTables(B)
-//@   invariant table != nil && above(table, B) && above(newRows, B) && tagged(newRows, "TableRow") && newRow != nil && above(newRow, B) && above(newRow.Cells, B) && tagged(newRow.Cells, "TableCell")
+//@   invariant B <= old(allocBound()) && table != nil && above(table, B) && above(newRows, B) && tagged(newRows, "TableRow") && table.Rows == old(table.Rows) && newRow != nil && above(newRow, B) && above(newRow.Cells, B) && tagged(newRow.Cells, "TableCell")
 //@   invariant (forall t *Table :: !isElem(t) && t != table ==> t.Rows == old(t.Rows)) && (forall r *TableRow :: !isElem(r) && allocated(r) ==> r.Cells == old(r.Cells)) && (forall p *Paragraph :: !isElem(p) && allocated(p) ==> p.Runs == old(p.Runs))
+//@   invariant !isElem(newRow) && above(newRow, iterBound(6)) && above(newRow.Cells, iterBound(6)) && newRow.Cells == atLoop(7, newRow.Cells)
+//@   invariant closedRows(iterBound(6))
+//@   invariant closedCells(iterBound(6))
+//@   invariant closedTables(iterBound(6))
+//@   invariant 0 <= i && i < len(newRow.Cells)
+//@   invariant 0 <= j && j < len(newRow.Cells[i].Paragraphs)
 //@ loop 11
 //@   invariant unchangedExcept("Table.Rows", "TableRow.*", "Paragraph.Runs") && unchangedBelow(B)
 //@   invariant closedRows(B)
 //@   invariant closedCells(B)
 //@   invariant closedTables(B)
-//@   invariant table != nil && above(table, B) && above(newRows, B) && tagged(newRows, "TableRow") && newRow != nil && above(newRow, B) && above(newRow.Cells, B) && tagged(newRow.Cells, "TableCell")
+//@   invariant B <= old(allocBound()) && table != nil && above(table, B) && above(newRows, B) && tagged(newRows, "TableRow") && table.Rows == old(table.Rows) && newRow != nil && above(newRow, B) && above(newRow.Cells, B) && tagged(newRow.Cells, "TableCell")
 //@   invariant (forall t *Table :: !isElem(t) && t != table ==> t.Rows == old(t.Rows)) && (forall r *TableRow :: !isElem(r) && allocated(r) ==> r.Cells == old(r.Cells)) && (forall p *Paragraph :: !isElem(p) && allocated(p) ==> p.Runs == old(p.Runs))
+//@   invariant !isElem(newRow) && above(newRow, iterBound(6)) && above(newRow.Cells, iterBound(6)) && newRow.Cells == atLoop(7, newRow.Cells)
+//@   invariant closedRows(iterBound(6))
+//@   invariant closedCells(iterBound(6))
+//@   invariant closedTables(iterBound(6))
+//@   invariant 0 <= i && i < len(newRow.Cells)
+//@   invariant 0 <= j && j < len(newRow.Cells[i].Paragraphs)
 //@ loop 12
 //@   invariant unchangedExcept("Table.Rows", "TableRow.*", "Paragraph.Runs") && unchangedBelow(B)
 //@   invariant closedRows(B)
 //@   invariant closedCells(B)
 //@   invariant closedTables(B)
-//@   invariant table != nil && above(table, B) && above(newRows, B) && tagged(newRows, "TableRow") && newRow != nil && above(newRow, B) && above(newRow.Cells, B) && tagged(newRow.Cells, "TableCell")
+//@   invariant B <= old(allocBound()) && table != nil && above(table, B) && above(newRows, B) && tagged(newRows, "TableRow") && table.Rows == old(table.Rows) && newRow != nil && above(newRow, B) && above(newRow.Cells, B) && tagged(newRow.Cells, "TableCell")
 //@   invariant (forall t *Table :: !isElem(t) && t != table ==> t.Rows == old(t.Rows)) && (forall r *TableRow :: !isElem(r) && allocated(r) ==> r.Cells == old(r.Cells)) && (forall p *Paragraph :: !isElem(p) && allocated(p) ==> p.Runs == old(p.Runs))
+//@   invariant !isElem(newRow) && above(newRow, iterBound(6)) && above(newRow.Cells, iterBound(6)) && newRow.Cells == atLoop(7, newRow.Cells)
+//@   invariant closedRows(iterBound(6))
+//@   invariant closedCells(iterBound(6))
+//@   invariant closedTables(iterBound(6))
+//@   invariant 0 <= i && i < len(newRow.Cells)
 //@ loop 13
 //@   invariant unchangedExcept("Table.Rows", "TableRow.*", "Paragraph.Runs") && unchangedBelow(B)
 //@   invariant closedRows(B)
 //@   invariant closedCells(B)
 //@   invariant closedTables(B)
-//@   invariant table != nil && above(table, B) && above(newRows, B) && tagged(newRows, "TableRow") && newRow != nil && above(newRow, B) && above(newRow.Cells, B) && tagged(newRow.Cells, "TableCell")
+//@   invariant B <= old(allocBound()) && table != nil && above(table, B) && above(newRows, B) && tagged(newRows, "TableRow") && table.Rows == old(table.Rows) && newRow != nil && above(newRow, B) && above(newRow.Cells, B) && tagged(newRow.Cells, "TableCell")
 //@   invariant (forall t *Table :: !isElem(t) && t != table ==> t.Rows == old(t.Rows)) && (forall r *TableRow :: !isElem(r) && allocated(r) ==> r.Cells == old(r.Cells)) && (forall p *Paragraph :: !isElem(p) && allocated(p) ==> p.Runs == old(p.Runs))
+//@   invariant !isElem(newRow) && above(newRow, iterBound(6)) && above(newRow.Cells, iterBound(6)) && newRow.Cells == atLoop(7, newRow.Cells)
+//@   invariant closedRows(iterBound(6))
+//@   invariant closedCells(iterBound(6))
+//@   invariant closedTables(iterBound(6))
+//@   invariant 0 <= i && i < len(newRow.Cells)
+//@   invariant 0 <= k && k < len(newRow.Cells[i].Tables)
 
 // ---- document level -------------------------------------------------------------------------------------
 // elemOwned / docOwned: the document object, its body, the element list and the part map lie at or above b; so
@@ -289,16 +390,21 @@ package document
 
 // Header/footer parts: the part map of the document is updated in place (same keys), the new byte arrays are
 // fresh; the byte arrays that were in the map are not written.
+// C18: only header and footer parts (word/header*.xml, word/footer*.xml) are rewritten; every other part of the base
+// document (styles, numbering, settings, media, custom parts, ...) keeps the very byte slice the clone gave it.
+//@ spec isHdrFtrPart(k string) bool = (strings.HasPrefix(k, "word/header") && strings.HasSuffix(k, ".xml")) || (strings.HasPrefix(k, "word/footer") && strings.HasSuffix(k, ".xml"))
 //@ func (*TemplateEngine).replaceVariablesInHeadersFooters
-//@ props C17
+//@ props C17, C18
 //@ ghost B int
 //@ requires te != nil && doc != nil && data != nil && above(doc.parts, B)
 //@ modifies map:string:[]byte
 //@ ensures unchangedBelow(B)
 //@ ensures forall k string :: has(doc.parts, k) == old(has(doc.parts, k))
+//@ ensures forall k string :: has(doc.parts, k) && !isHdrFtrPart(k) ==> doc.parts[k] == old(doc.parts[k])
 //@ loop 1
 //@   invariant unchangedBelow(B) && doc.parts != nil
 //@   invariant forall k string :: has(doc.parts, k) == old(has(doc.parts, k))
+//@   invariant forall k string :: has(doc.parts, k) && !isHdrFtrPart(k) ==> doc.parts[k] == old(doc.parts[k])
 
 // applyRenderedContentToDocument appends fresh paragraphs to the body of the document it is given.
 //@ func (*TemplateEngine).applyRenderedContentToDocument
@@ -420,12 +526,12 @@ package document
 
 // processImagePlaceholdersInParagraph returns the paragraph itself or fresh paragraphs; pictures are added to
 // the document given (its part map, relationship list, content types, counter), nothing below B is written.
-// assume-no-panic: the positions of the placeholders come from strings.Index on text a regular expression
-// matched; that they are in range is a fact about regexp (property C16), not shown here.
+// Index safety is proved (no assume-no-panic): the placeholder positions are those reported by
+// FindAllStringSubmatchIndex (regexp shape model: inside the text, successive matches ordered, a group is -1/-1 or
+// inside its match); lastEnd never passes the start of a match still to come.
 //@ func (*TemplateEngine).processImagePlaceholdersInParagraph
 //@ props C17
 //@ ghost B int
-//@ assume-no-panic
 //@ ignore-ensures deepcopy, drawingIs
 //@ requires te != nil && para != nil && imagesOK(data) && imgDoc(doc, B)
 //@ modifies Document.nextImageID, map:string:[]byte, Relationships.Relationships, []Relationship, Document.contentTypes, ContentTypes.Defaults, []Default, ImageInfo.Config, ImageConfig.AltText, ImageConfig.Title
@@ -436,13 +542,9 @@ package document
 //@   invariant 0 <= #i && #i <= len(para.Runs) && unchangedHeap()
 //@   decreases len(para.Runs) - #i
 //@ loop 2
-//@   invariant 0 <= #i && #i <= len(originalMatches) && unchangedHeap() && freshArr(allMatches)
-//@   decreases len(originalMatches) - #i
-//@ loop 3
-//@   invariant 0 <= #i && #i <= len(renderedMatches) && unchangedHeap() && freshArr(allMatches)
-//@   decreases len(renderedMatches) - #i
-//@ loop 4
 //@   invariant 0 <= #i && #i <= len(allMatches)
+//@   invariant 0 <= lastEnd && lastEnd <= len(fullText)
+//@   invariant forall j int :: #i <= j && j < len(allMatches) ==> lastEnd <= allMatches[j][0]
 //@   invariant unchangedBelow(B)
 //@   invariant imgDoc(doc, B)
 //@   invariant unchangedExcept("Document.nextImageID", "map:string:[]byte", "Relationships.Relationships", "[]Relationship", "Document.contentTypes", "ContentTypes.Defaults", "[]Default", "ImageInfo.Config", "ImageConfig.AltText", "ImageConfig.Title")
@@ -451,11 +553,11 @@ package document
 
 // processImagePlaceholdersInTable replaces paragraphs of the cells of the table it is given (cells reached
 // from the table: in the region) by the paragraph itself or fresh ones. Nested tables are not visited.
-// assume-no-panic: the paragraph list of a cell is replaced while it is being ranged over.
+// Index safety and termination of the paragraph loop are proved (no assume-no-panic): the loop walks the current list
+// by index and steps over the paragraphs it inserted (fix 74949fb; before, the list was replaced while being ranged over).
 //@ func (*TemplateEngine).processImagePlaceholdersInTable
 //@ props C17
 //@ ghost B int
-//@ assume-no-panic
 //@ requires te != nil && tableRoot(table, B) && closedAbove(B) && imagesOK(data) && imgDoc(doc, B)
 //@ modifies TableCell.Paragraphs, Paragraph.*, Document.nextImageID, map:string:[]byte, Relationships.Relationships, []Relationship, Document.contentTypes, ContentTypes.Defaults, []Default, ImageInfo.Config, ImageConfig.AltText, ImageConfig.Title
 //@ ensures unchangedBelow(B)
@@ -484,6 +586,8 @@ package document
 //@   invariant tableRoot(table, B) && imgDoc(doc, B)
 //@   invariant forall p *Paragraph :: !isElem(p) && allocated(p) ==> unchangedStruct(p)
 //@   invariant cell != nil && elemOf(cell, "TableCell") && above(cell, B) && live(cell)
+//@   invariant 0 <= paraIdx
+//@   decreases len(cell.Paragraphs) - paraIdx
 //@ loop 4
 //@   invariant unchangedBelow(B)
 //@   invariant closedRows(B)
@@ -493,16 +597,19 @@ package document
 //@   invariant forall p *Paragraph :: !isElem(p) && allocated(p) ==> unchangedStruct(p)
 //@   invariant cell != nil && elemOf(cell, "TableCell") && above(cell, B) && live(cell)
 //@   invariant freshArr(newParagraphs)
+//@   invariant 0 <= paraIdx && paraIdx < len(cell.Paragraphs) && 0 <= inserted && len(newParagraphs) == paraIdx + inserted
+//@   invariant 0 <= #i && #i <= len(newElements)
+//@   decreases len(newElements) - #i
 
 // OTHERS: top-level paragraph and table objects are separately allocated; a call on one element leaves the
 // others' runs / rows alone (what keeps docOwned of the remaining elements across the loop).
 
 // processImagePlaceholders splices fresh paragraphs into the element list of the document it is given.
-// assume-no-panic: the element list is re-sliced with indices of the list it is ranging over.
+// Index safety and termination are proved (no assume-no-panic): the loop walks the current list by index and steps
+// over the elements it inserted (fix 14626b2; before, the list was re-sliced with indices of the list being ranged over).
 //@ func (*TemplateEngine).processImagePlaceholders
 //@ props C17
 //@ ghost B int
-//@ assume-no-panic
 //@ requires te != nil && docOwned(doc, B) && closedAbove(B) && imagesOK(data) && imgDoc(doc, B)
 //@ modifies Body.Elements, cell:any, TableCell.Paragraphs, Paragraph.*, Document.nextImageID, map:string:[]byte, Relationships.Relationships, []Relationship, Document.contentTypes, ContentTypes.Defaults, []Default, ImageInfo.Config, ImageConfig.AltText, ImageConfig.Title
 //@ ensures unchangedBelow(B)
@@ -515,6 +622,8 @@ package document
 //@   invariant elemsOwned(doc.Body.Elements, B)
 //@   invariant forall j int :: {old(doc.Body.Elements)[j]} 0 <= j && j < old(len(doc.Body.Elements)) ==> elemOwned(old(doc.Body.Elements)[j], B)
 //@   invariant imgDoc(doc, B)
+//@   invariant 0 <= i
+//@   decreases len(doc.Body.Elements) - i
 
 // replaceVariablesInDocument: the whole substitution pass on the (cloned) document.
 //@ func (*TemplateEngine).replaceVariablesInDocument
@@ -530,12 +639,26 @@ package document
 //@   invariant closedTables(B)
 //@   invariant docOwned(doc, B)
 //@   invariant imgDoc(doc, B)
+// C18, variable pass over the body (this loop): the element list is the one the loop started with - same array, same length,
+// the same element object at every index, in the same order; section properties, bookmarks and every other element that is
+// neither a paragraph nor a table are not written at all (no heap of theirs is in the frame of the two callees), paragraphs
+// and tables only as their own contracts say (Paragraph.Runs / Table.Rows, TableRow.*). Relationship and content-type lists,
+// the part map, styles and numbering are outside the frame of the variable pass as well (they change only in the header/footer
+// and picture passes that follow, see their contracts).
+//@   invariant doc.Body == atLoop(1, doc.Body) && doc.Body.Elements == atLoop(1, doc.Body.Elements)
+//@   invariant forall j int :: 0 <= j && j < len(doc.Body.Elements) ==> doc.Body.Elements[j] == atLoop(1, doc.Body.Elements[j])
+//@   invariant doc.parts == atLoop(1, doc.parts) && doc.documentRelationships == atLoop(1, doc.documentRelationships) && doc.contentTypes == atLoop(1, doc.contentTypes) && doc.nextImageID == atLoop(1, doc.nextImageID)
+//@   invariant doc.documentRelationships != nil ==> doc.documentRelationships.Relationships == atLoop(1, doc.documentRelationships.Relationships)
+//@   invariant doc.contentTypes != nil ==> doc.contentTypes.Defaults == atLoop(1, doc.contentTypes.Defaults) && doc.contentTypes.Overrides == atLoop(1, doc.contentTypes.Overrides)
+//@   invariant 0 <= #i && #i <= len(doc.Body.Elements)
+//@   decreases len(doc.Body.Elements) - #i
 
 // ---- the two rendering entry points -----------------------------------------------------------------------
 // baseDocOK: what every document built by New/Open/the Add* API satisfies and cloneDocument relies on.
 //@ spec baseDocOK(d *Document) bool = d.Body != nil && elemsOK(d.Body.Elements) && sectRefsOK(d.Body.Elements) && mediaFresh(d) && d.nextImageID >= 0
 // cacheOK: the cache holds no nil template (LoadTemplate/LoadTemplateFromDocument store the template they built).
-//@ spec cacheOK(te *TemplateEngine) bool = forall k string :: has(te.cache, k) ==> te.cache[k] != nil && (te.cache[k].BaseDoc != nil ==> baseDocOK(te.cache[k].BaseDoc))
+// ... and the parent chain of every cached template is ordered by allocation (chainOlder, zz_contracts_verif_template.go).
+//@ spec cacheOK(te *TemplateEngine) bool = forall k string :: has(te.cache, k) ==> te.cache[k] != nil && (te.cache[k].BaseDoc != nil ==> baseDocOK(te.cache[k].BaseDoc)) && chainOlder(te.cache[k])
 
 // RenderTemplateToDocument / RenderToDocument: NOTHING that existed before the call is written - not the engine
 // and its cache, not the template, its blocks, its parents, not the base document (body, paragraphs, tables,
